@@ -29,8 +29,12 @@ PY
       *"exit=2"*) verdict="INCONCLUSIVE at $p";;
     esac
   done
-  echo "$n: $verdict"
-  case "$verdict" in DETECTED*) ;; *) bad=1;; esac
+  if grep -q '"expected": "not-detected"' "$d/meta.json"; then
+    echo "$n: $verdict (recorded as not detected, see meta.json)"
+  else
+    echo "$n: $verdict"
+    case "$verdict" in DETECTED*) ;; *) bad=1;; esac
+  fi
 done
 rm -rf "$SNAP"
 echo ALLDONE bad=$bad
